@@ -162,5 +162,25 @@ def run(rep, tier, seed):
 
 
 def replay(d):
-    print("re-run: python3 check.py C09 quick (the replay file records the exact class / description / details)")
+    import ocpp.exceptions as ex
+    from ocpp.v16 import call
+    if d.get("kind") == "error-transport":
+        cls = getattr(ex, d["class"])
+
+        def behave(kwargs):
+            raise cls(description=d["description"], details=d["details"])
+        res = N.run_loopback("1.6", "Heartbeat", call.Heartbeat(), behave, suppress=d["suppress"])
+        oc = res["outcome"]
+        print("caller outcome:", oc[:2], "reply:", res["reply"])
+        want_d = d["description"] if d["description"] is not None else cls.default_description
+        want_x = d["details"] if d["details"] is not None else {}
+        ok = (oc[0] == "none") if d["suppress"] else (oc[0] == "ocpp" and oc[1][0] == d["class"] and oc[1][1] == want_d and O.same_value(oc[1][2], want_x))
+        print("HOLDS" if ok else "FAILS")
+        return 0 if ok else 1
+    if d.get("kind") == "history":
+        from harness import impl_history as H
+        res = H.run_history(d["version"], d["routes"], [tuple(o) for o in d["ops"]], d["timeout"])
+        print("outcomes:", res["outcomes"])
+        return 0
+    print("re-run: python3 check.py C09 quick")
     return 0
